@@ -185,7 +185,7 @@ theorem OpsBinary.eval {ops : List (Exp (Ext K))} {d : List (DomVar (Ext K))} (h
 "every operand is binary". -/
 theorem binOperands_spec : ∀ (es : List (Exp (Ext K))), (∀ e ∈ es, SpecHolds Src e) →
     ∀ (s : St (Ext K)) (ops : List (Exp (Ext K))) (sL : St (Ext K)),
-      StInv Src s → (∀ e ∈ es, ∀ x ∈ varsOf e, inScope s.domain x) → (∀ e ∈ es, DefinedE e) →
+      StInv Src s → (∀ e ∈ es, ∀ x ∈ varsOf e, inScope s.domain x) → (∀ e ∈ es, FinE e) →
       linBinaryOperands es s = .ok (ops, sL) →
       linList es .exact s = .ok (ops, sL) ∧ OpsBinary ops sL.domain := by
   intro es
@@ -251,7 +251,7 @@ fresh Boolean `v` is constrained by `rows`, and on 0/1 values the rows say exact
 theorem spec_reify {e : Exp (Ext K)} {es : List (Exp (Ext K))} {s sL : St (Ext K)} {ops : List (Exp (Ext K))}
     {v : String} {rows : List (Cmp × Exp (Ext K))} (req : Req) (T : List K → K)
     (hall : ∀ r ∈ es, SpecHolds Src r) (hinv : StInv Src s)
-    (hvars : ∀ r ∈ es, ∀ x ∈ varsOf r, inScope s.domain x) (hdef : ∀ r ∈ es, DefinedE r)
+    (hvars : ∀ r ∈ es, ∀ x ∈ varsOf r, inScope s.domain x) (hdef : ∀ r ∈ es, FinE r)
     (hlin : linList es .exact s = .ok (ops, sL)) (hbin : OpsBinary ops sL.domain)
     (hfresh : v ∉ sL.domain.map (·.name))
     (hT01 : ∀ as, B01 (T as))
